@@ -29,6 +29,10 @@ type Op struct {
 	AssignForm int  `json:"assign_form,omitempty"`
 	Wrap       int  `json:"wrap,omitempty"` // 0 none, 1 Session(&Session{}), 2 WithContext(ctx)
 	WrapPos    int  `json:"wrap_pos,omitempty"`
+
+	// Fault k > 0: the k-th statement the operation sends to the driver fails
+	// with an injected error instead of executing (single transient fault).
+	Fault int `json:"fault,omitempty"`
 }
 
 // ---- contents -------------------------------------------------------------
@@ -72,10 +76,23 @@ const (
 	ruleUpdateAll = 1
 	ruleColsFirst = 2 // 2..8: DoUpdates(AssignmentColumns(subset)), subset = bitmask rule-1
 	ruleConstAge  = 9 // DoUpdates(Assignments{age: 5})
-	numRules      = 10
+	// conditional rules: the update is applied only where the incoming age is
+	// greater than the stored one (OnConflict.Where)
+	ruleUpdateAllWhere = 10 // UpdateAll + Where
+	ruleColsWhere      = 11 // DoUpdates(AssignmentColumns(name,email)) + Where
+	numRules           = 12
 )
 
+func ruleHasWhere(rule int) bool { return rule == ruleUpdateAllWhere || rule == ruleColsWhere }
+
+func ruleWhere(m int) clause.Where {
+	return clause.Where{Exprs: []clause.Expression{clause.Expr{SQL: "excluded.age > " + tableOf[m] + ".age"}}}
+}
+
 func ruleCols(rule int) []string {
+	if rule == ruleColsWhere {
+		return []string{"name", "email"}
+	}
 	var cols []string
 	mask := rule - 1
 	for i, c := range updCols {
@@ -86,9 +103,13 @@ func ruleCols(rule int) []string {
 	return cols
 }
 
-func ruleClause(rule int) clause.OnConflict {
+func ruleClause(m int, rule int) clause.OnConflict {
 	idCol := []clause.Column{{Name: "id"}}
 	switch {
+	case rule == ruleUpdateAllWhere:
+		return clause.OnConflict{UpdateAll: true, Where: ruleWhere(m)}
+	case rule == ruleColsWhere:
+		return clause.OnConflict{Columns: idCol, DoUpdates: clause.AssignmentColumns(ruleCols(rule)), Where: ruleWhere(m)}
 	case rule == ruleDoNothing:
 		return clause.OnConflict{DoNothing: true}
 	case rule == ruleUpdateAll:
@@ -102,6 +123,10 @@ func ruleClause(rule int) clause.OnConflict {
 
 func ruleName(rule int) string {
 	switch {
+	case rule == ruleUpdateAllWhere:
+		return "OnConflict{UpdateAll;Where:excluded.age > t.age}"
+	case rule == ruleColsWhere:
+		return "OnConflict{id;DoUpdates:AssignmentColumns(name,email);Where:excluded.age > t.age}"
 	case rule == ruleDoNothing:
 		return "OnConflict{DoNothing}"
 	case rule == ruleUpdateAll:
@@ -167,6 +192,11 @@ func fmtArgs(m int, c Content, form int) string {
 }
 
 func (op Op) Label(m int) string {
+	if op.Fault > 0 {
+		o := op
+		o.Fault = 0
+		return o.Label(m) + fmt.Sprintf("  [driver fault at statement #%d]", op.Fault)
+	}
 	switch op.Kind {
 	case "save":
 		return fmt.Sprintf("Save(&%s{ID:%d,%s}) x2", modelName[m], op.Key, valSet[op.Val])
@@ -241,7 +271,7 @@ func alphabet(m int) (core, wrapped []Op) {
 		}
 	}
 	for k := 1; k <= 2; k++ {
-		for _, r := range []int{ruleDoNothing, ruleUpdateAll, ruleColsFirst} {
+		for _, r := range []int{ruleDoNothing, ruleUpdateAll, ruleColsFirst, ruleUpdateAllWhere} {
 			add(Op{Kind: "upsertb", Key: k, Rule: r})
 		}
 	}
@@ -311,6 +341,7 @@ type Outcome struct {
 	Panic   string
 	Leak    string
 	Events  []recsqlite.Event
+	Stmts   int  // statements sent to the driver
 	Foreign bool // a statement mentioned the table of the other model
 	Writes  int  // statements that are not SELECT
 	TxEv    int  // begin/commit/rollback events
@@ -337,6 +368,7 @@ func (w *worker) collect(m int, before State, out *Outcome) {
 	other := tableOf[1-m]
 	for _, ev := range out.Events {
 		if ev.IsStatement() {
+			out.Stmts++
 			if verb(ev.SQL) != "SELECT" {
 				out.Writes++
 			}
@@ -368,6 +400,19 @@ func (w *worker) exec(m int, before State, op Op) (out Outcome) {
 	e := w.env
 	db := e.DB
 	e.Rec.Reset()
+	if op.Fault > 0 {
+		n := 0
+		e.Rec.Fault = func(ev *recsqlite.Event) error {
+			if ev.IsStatement() {
+				n++
+				if n == op.Fault {
+					return recsqlite.ErrInjected
+				}
+			}
+			return nil
+		}
+		defer func() { e.Rec.Fault = nil }()
+	}
 	run := func(o *Outcome, f func() (*gorm.DB, []Row)) {
 		defer func() {
 			if r := recover(); r != nil {
@@ -390,7 +435,7 @@ func (w *worker) exec(m int, before State, op Op) (out Outcome) {
 			return tx, []Row{readRecord(rec)}
 		})
 		w.collect(m, before, &out)
-		if out.Panic == "" && out.Err == "" {
+		if out.Panic == "" && out.Err == "" && op.Fault == 0 {
 			// the same value again (with the key the first Save produced)
 			key := op.Key
 			if len(out.Recs) == 1 {
@@ -410,7 +455,7 @@ func (w *worker) exec(m int, before State, op Op) (out Outcome) {
 	case "upsert":
 		run(&out, func() (*gorm.DB, []Row) {
 			rec := mkRecord(m, op.Key, valSet[op.Val])
-			tx := db.Clauses(ruleClause(op.Rule)).Create(rec)
+			tx := db.Clauses(ruleClause(m, op.Rule)).Create(rec)
 			return tx, []Row{readRecord(rec)}
 		})
 	case "upsertb":
@@ -421,7 +466,7 @@ func (w *worker) exec(m int, before State, op Op) (out Outcome) {
 				for _, x := range b {
 					recs = append(recs, *(mkRecord(m, x[0], valSet[x[1]]).(*User)))
 				}
-				tx := db.Clauses(ruleClause(op.Rule)).Create(&recs)
+				tx := db.Clauses(ruleClause(m, op.Rule)).Create(&recs)
 				var rows []Row
 				for i := range recs {
 					rows = append(rows, readRecord(&recs[i]))
@@ -432,7 +477,7 @@ func (w *worker) exec(m int, before State, op Op) (out Outcome) {
 			for _, x := range b {
 				recs = append(recs, *(mkRecord(m, x[0], valSet[x[1]]).(*SUser)))
 			}
-			tx := db.Clauses(ruleClause(op.Rule)).Create(&recs)
+			tx := db.Clauses(ruleClause(m, op.Rule)).Create(&recs)
 			var rows []Row
 			for i := range recs {
 				rows = append(rows, readRecord(&recs[i]))
@@ -507,6 +552,15 @@ func rowOf(id int, v Vals) Row {
 }
 
 func ref(m int, st State, op Op) Expect {
+	if op.Fault > 0 {
+		// a single failed statement: the operation reports an error and the
+		// table is what it was (nothing is written on behalf of a failed
+		// lookup, a failed write is rolled back)
+		o := op
+		o.Fault = 0
+		base := ref(m, st, o)
+		return Expect{WantErr: true, After: st.clone(), MaxWrites: -1, Class: "fault-" + base.Class}
+	}
 	after := st.clone()
 	ex := Expect{MaxWrites: -1}
 	switch op.Kind {
@@ -535,7 +589,7 @@ func ref(m int, st State, op Op) Expect {
 			items = batchOf(op)
 		}
 		var ra int64
-		conflicts, softConflicts := 0, 0
+		conflicts, softConflicts, skipped := 0, 0, 0
 		for _, it := range items {
 			in := rowOf(it[0], valSet[it[1]])
 			ex.Recs = append(ex.Recs, in)
@@ -549,9 +603,14 @@ func ref(m int, st State, op Op) Expect {
 			if after[i].Del {
 				softConflicts++
 			}
+			if ruleHasWhere(op.Rule) && !(in.Age > after[i].Age) {
+				// the rule's condition does not hold for this row: left alone
+				skipped++
+				continue
+			}
 			switch {
 			case op.Rule == ruleDoNothing:
-			case op.Rule == ruleUpdateAll:
+			case op.Rule == ruleUpdateAll, op.Rule == ruleUpdateAllWhere:
 				// every column except the primary key and created_at, so
 				// deleted_at too (the new value has none)
 				after[i] = in
@@ -573,7 +632,11 @@ func ref(m int, st State, op Op) Expect {
 				ra++
 			}
 		}
-		ex.CheckRecs = true
+		// the in-memory elements of a batch whose conditional rule skipped some
+		// rows are not defined by this property (gorm maps the fewer RETURNING
+		// rows onto the elements in order); single records and unconditional
+		// batches are compared
+		ex.CheckRecs = !(op.Kind == "upsertb" && ruleHasWhere(op.Rule))
 		ex.RA = ra
 		// RowsAffected of a batch with DO NOTHING and caller-supplied keys is
 		// not defined by the property (ambiguous); single-row cases are.
@@ -585,6 +648,11 @@ func ref(m int, st State, op Op) Expect {
 			rc = "updateall"
 		} else if op.Rule == ruleConstAge {
 			rc = "const"
+		} else if ruleHasWhere(op.Rule) {
+			rc = "where-true"
+			if skipped > 0 {
+				rc = "where-false"
+			}
 		}
 		switch {
 		case softConflicts > 0:
@@ -722,6 +790,12 @@ func judge(m int, st State, op Op, ex Expect, out Outcome) string {
 	}
 	if ex.WantErr {
 		if out.Err == "" {
+			if op.Fault > 0 {
+				if out.After.Key() != st.Key() {
+					return "a statement failed but the operation returned no error and changed the table\nbefore " + st.Key() + "\nafter  " + out.After.Key()
+				}
+				return "a statement failed but the operation returned no error"
+			}
 			return "expected an error (key collides with a soft-deleted row), got none"
 		}
 		if out.After.Key() != st.Key() {
